@@ -16,6 +16,7 @@ import numpy as np
 from ..index import AnchorMissing, Unrecognised
 from ..absval import Evaluator
 from ..cfg import CFG
+from ..pend import edge_facts
 from ..astutil import (u, body_walk, local_env, func_calls, walk_local, class_inline_env, single_return_expr, inline_locals, statements)
 from .. import sym
 
@@ -433,10 +434,19 @@ def r6_writer(ctx):
     withs = [n for n in g.nodes if n.kind == "with"]
     ok_mode = any("'ab'" in u(w.ast.items[0].context_expr) and "self._file_obj.name" in u(w.ast.items[0].context_expr) for w in withs)
     ctx.ob(ex.where, "on close the EOF block is appended once to the same file, after the data was flushed", ok and ok_mode, "", key="C16-R6|eof")
-    files = ix.module("bionumpy.io.files")
-    txt = files.source
-    ok = "writer_class = NumpyBamWriter" in txt and 'if suffix == ".bam":' in txt
-    ctx.ob(f"{files.relpath}", ".bam targets are written with the BAM writer", ok, "")
+    gb = ix.func("bionumpy.io.files", "_get_buffered_file")
+    gg = CFG(gb.node)
+    sel = [n for n in gg.nodes if n.kind == "stmt" and isinstance(n.ast, ast.Assign) and u(n.ast.value) == "NumpyBamWriter"]
+    want = (sym.canon(sym.parse_expr(f"{gb.params[1]} == '.bam'")), True)
+    ok = False
+    for n in sel:
+        facts = set()
+        for t, lab in gg.guards(n):
+            facts |= edge_facts(t, lab)
+        tgt = u(n.ast.targets[0])
+        used = [r for r in gg.nodes if r.kind == "stmt" and isinstance(r.ast, ast.Return) and any(isinstance(c, ast.Call) and u(c.func) == tgt for c in ast.walk(r.ast))]
+        ok = ok or (want in facts and bool(used))
+    ctx.ob(gb.where, ".bam targets are written with the BAM writer", ok, "; ".join(u(n.ast) for n in sel), key="C16-R6|bam-writer-selected")
 
 
 _WIDTH = {"uint8": 8, "int8": 8, "uint16": 16, "int16": 16, "uint32": 32, "int32": 32, "uint64": 64, "int64": 64, "weak": 0}
